@@ -588,6 +588,31 @@ func genUDP(rn *runner, r *vc.Rand, thorough bool) {
 		line := udpLine("hold", nil, "eof", false, append(append([]string{}, many...), "z1400x3", "z9000x5"), 5*n+2+1400+700, "-", []int{11}, "")
 		rn.add("udpr"+strings.TrimPrefix(line, "udp"), "udpr:real-udp-socket")
 	}
+	// bursts of LARGE datagrams decoded from one tunnel read: the payloads of one sendmmsg batch total more than
+	// 64 KiB / 128 KiB / the socket send buffer (10 x 8000, 32 x 4000, 2 x 40000, mixed sizes up to the UDP maximum 65507)
+	bursts := [][]string{}
+	rep := func(n, sz int) []string {
+		var out []string
+		for i := 0; i < n; i++ {
+			out = append(out, fmt.Sprintf("z%dx%d", sz, 1+i*7%250))
+		}
+		return out
+	}
+	bursts = append(bursts, rep(10, 8000), rep(32, 4000), rep(2, 40000), rep(9, 8192), rep(33, 2100),
+		[]string{"z65507x1", "z1x2", "z65507x3", "z30000x4", "z1472x5", "z65507x6"},
+		[]string{"z100x1", "z60000x2", "z5000x3", "z700x4", "z60000x5", "z9000x6", "z1x7"})
+	if thorough {
+		bursts = append(bursts, rep(32, 9000), rep(64, 3000), rep(5, 65507))
+	}
+	for bi, b := range bursts {
+		line := udpLine("hold", nil, []string{"eof", "err"}[bi%2], false, b, uncut, "-", nil, "")
+		rn.add("udpr"+strings.TrimPrefix(line, "udp"), "udpr:large-burst")
+		// the same burst, but the tunnel read ends inside the third datagram: two decode batches
+		line = udpLine("hold", nil, "eof", false, b, uncut, "-", []int{2*2 + tokLen(b[0]) + tokLen(b[1]) + 7}, "")
+		rn.add("udpr"+strings.TrimPrefix(line, "udp"), "udpr:large-burst")
+		// fake UDP side (per-datagram Write path) for the same burst
+		rn.add(udpLine("hold", nil, "eof", false, b, uncut, "-", nil, ""), "udp:large-burst")
+	}
 	// (5) schedules: every interleaving of the two goroutines for short scripts, every combination of endings
 	for _, utail := range []string{"eof", "err", "hold"} {
 		for _, ttail := range []string{"eof", "err", "hold"} {
